@@ -269,3 +269,57 @@ package litmus
 //@   requires len(s) >= 3
 //@   modifies s
 //@   ensures result == old(s[2])
+
+//@ func badRangeOnce
+//@   requires len(s) == 3
+//@   ensures result == 1
+//@ func badRangeArrayCopy
+//@   ensures result == 13
+//@ func badRangeSliceLive
+//@   ensures result == 6
+//@ func badFallthrough
+//@   ensures x == 1 ==> result == 1
+//@ func okSwapElems
+//@   requires len(s) >= 2
+//@   modifies s
+//@   ensures result == old(s[1])
+//@ func badSwapElems
+//@   requires len(s) >= 2
+//@   modifies s
+//@   ensures result == old(s[1])
+//@ func badIndexOrder
+//@   requires len(s) >= 2
+//@   modifies s
+//@   ensures result == 5
+//@ func badAddrLocal
+//@   ensures result == 1
+//@ func badAddrField
+//@   ensures result == 0
+//@ func okAddrRecv
+//@   ensures result == 4
+//@ func badAddrRecv
+//@   ensures result == 0
+//@ func badStrLen
+//@   ensures result == 1
+//@ func okStrLess
+//@   ensures result
+//@ func badStrLess
+//@   ensures !result
+//@ func okTyped
+//@   ensures result == 44
+//@ func badTyped
+//@   ensures result == 300
+//@ func okShr
+//@   requires x == 0 - 8
+//@   ensures result == 0 - 4
+//@ func badShr
+//@   requires x == 0 - 7
+//@   ensures result == 0 - 3
+//@ func okBigShift
+//@   requires n >= 64
+//@   ensures result == 0
+//@ func badBigShift
+//@   requires n == 64
+//@   ensures result == x
+//@ func badMapAppend
+//@   ensures result == 1
